@@ -866,6 +866,9 @@ class PteraTransformer(NodeTransformer):
         After:
             x: int = _ptera_interact('x', int)
         """
+        if node.value is None and not isinstance(node.target, ast.Name):
+            # o.x: int / o[k]: int declare no variable and store nothing
+            return node
         return self.make_interaction(
             node.target,
             self._ann(node.annotation),
